@@ -51,7 +51,7 @@ fn operand_len(name: &str) -> Option<usize> {
         "GetLocal" | "SetLocal" | "GetUpvalue" | "SetUpvalue" | "BuildHashMap" | "BuildString"
         | "BuildTuple" | "BuildVec" | "Call" | "Construct" => 1,
         "Invoke" | "SuperInvoke" => 3,
-        "PushExcHandler" => 4,
+        "PushExcHandler" => 6,
         "Nil" | "True" | "False" | "Pop" | "CopyTop" | "GetClass" | "Equal" | "Greater" | "Less"
         | "Add" | "Subtract" | "Multiply" | "Divide" | "BitwiseAnd" | "BitwiseOr" | "BitwiseXor"
         | "Modulo" | "LogicalNot" | "BitwiseNot" | "BitShiftLeft" | "BitShiftRight" | "Negate"
@@ -82,6 +82,8 @@ struct TryRegion {
     body_start: usize,
     catch_target: usize,
     finally_target: usize,
+    /// just past the EndFinally that closes the statement (third operand)
+    end: usize,
 }
 
 /// Analyse function `fi` of `funcs`.
@@ -157,12 +159,14 @@ pub fn analyse_opts(funcs: &[FunctionDump], fi: usize, ops: &OpTable, skip_final
         if ins.name == "PushExcHandler" {
             let try_size = u16_at(code, pc + 1);
             let catch_size = u16_at(code, pc + 3);
-            let body_start = pc + 5;
+            let statement_size = u16_at(code, pc + 5);
+            let body_start = pc + 7;
             regions.push(TryRegion {
                 push_pc: pc,
                 body_start,
                 catch_target: body_start + try_size,
                 finally_target: body_start + try_size + catch_size,
+                end: body_start + statement_size,
             });
         }
     }
@@ -181,19 +185,15 @@ pub fn analyse_opts(funcs: &[FunctionDump], fi: usize, ops: &OpTable, skip_final
             }
         }
     }
-    // for EndFinally: which finally target does it close?  Every try statement ends in exactly one
-    // EndFinally; statements nest properly (also inside each other's finally blocks), so in code order
-    // each EndFinally closes the not yet closed region with the largest finally target before it.
+    // for EndFinally: which finally target does it close?  The handler names the end of its statement
+    // (third operand); that position must be just past an EndFinally, and targets must be ordered.
     let mut end_to_finally: BTreeMap<usize, usize> = BTreeMap::new();
-    {
-        let mut open: BTreeSet<usize> = regions.iter().map(|r| r.finally_target).collect();
-        for (&pc, ins) in &instrs {
-            if ins.name == "EndFinally" {
-                if let Some(&ft) = open.range(..=pc).next_back() {
-                    open.remove(&ft);
-                    end_to_finally.insert(pc, ft);
-                }
-            }
+    for r in &regions {
+        let ok = r.end >= 1 && instrs.get(&(r.end - 1)).map(|i| i.name == "EndFinally").unwrap_or(false) && r.finally_target < r.end && r.catch_target <= r.finally_target;
+        if !ok {
+            issue(&mut rep, r.push_pc, "handler_end_misplaced", format!("handler names catch {} / finally {} / end {}: the end is not just past an EndFinally after the finally target", r.catch_target, r.finally_target, r.end));
+        } else if end_to_finally.insert(r.end - 1, r.finally_target).is_some() {
+            issue(&mut rep, r.push_pc, "handler_end_shared", format!("two handlers name the EndFinally at {}", r.end - 1));
         }
     }
     let finally_of_end = |end_pc: usize| -> Option<usize> { end_to_finally.get(&end_pc).copied() };
